@@ -189,6 +189,9 @@ func H_C08_sort1() { sortHarness(3, sortValConc, false, false, false) }
 //verif:harness props=C08,C02,C01 tier=quick bounds="2 documents, two sort options (s then t) with symbolic directions, criteria x >= symbolic float64 literal, index none / on s / on x"
 func H_C08_sort2_crit() { sortHarness(2, sortValConc, true, true, false) }
 
+//verif:harness props=C08,C02,C14 tier=quick bounds="2 documents, ONE sort option on s (symbolic direction) together with criteria x >= symbolic literal; indexes none / on s / on x / on both x and s: the planner may serve the filter from one index and must still deliver the order of the other field"
+func H_C08_sort1_crit() { sortHarness(2, sortValConc, false, true, false) }
+
 //verif:harness props=C08,C09,C02 tier=quick bounds="4 documents with fixed sort keys (2.5, nil, 2.5, absent), symbolic direction, symbolic skip and limit (any int), index none / on s / on x: window of the sorted sequence, unsorted window count, Count/Exists/FindFirst agree, ForEach stops after the consumer returns false at call k"
 func H_C08_window() { sortHarness(4, ref.Opts{}, false, false, true) }
 
